@@ -330,7 +330,21 @@ void ref_model(const row_t *row, const gcase_t *c, const unsigned char *d0, cons
     if (!strncmp(nm, "stris", 5)) {
         int ok = 1;
         if (dl == 0) return;                                /* empty string: doc silent */
-        if (!strcmp(nm, "strismixedcase_s") || !strcmp(nm, "strispassword_s")) return; /* doc ambiguous / own length window */
+        if (!strcmp(nm, "strispassword_s")) {
+            /* documented composition rules: 6..32 characters, at least 2 lower case, 2 upper case, 1 digit, 1 special character.
+             * Declined where the documentation is silent or contradicts itself: dmax on the borders of its window (6, 32), and
+             * strings with blanks, control or non-ASCII characters. */
+            unsigned lo = 0, up = 0, nu = 0, sp = 0;
+            if (c->dmax <= 6 || c->dmax >= 32) return;
+            for (i = 0; i < dl; i++) {
+                unsigned char ch = d0[i];
+                if (ch < 33 || ch > 126) return;
+                if (ch >= '0' && ch <= '9') nu++; else if (ch >= 'a' && ch <= 'z') lo++; else if (ch >= 'A' && ch <= 'Z') up++; else sp++;
+            }
+            m->known = 1; m->expect = MX_VALUE; m->ret = dl >= 6 && lo >= 2 && up >= 2 && nu >= 1 && sp >= 1;
+            return;
+        }
+        if (!strcmp(nm, "strismixedcase_s")) return; /* doc ambiguous */
         for (i = 0; i < dl; i++) {
             unsigned char ch = d0[i];
             if (!strcmp(nm, "strisalphanumeric_s")) ok &= (ch < 128 && isalnum(ch));
